@@ -1,6 +1,7 @@
 package main
 
 import (
+	"golang.org/x/tools/go/ssa"
 	"fmt"
 	"go/types"
 	"strings"
@@ -99,6 +100,16 @@ func (x *Exec) specCall(c *SpecCtx, e *Expr) (*Val, error) {
 				v = retype(v, a.Type().(*types.Pointer).Elem())
 			}
 			return v, nil
+		}
+		// a local whose address escapes lives on the heap: the name denotes (a pointer to) it
+		for _, b := range x.fn.Blocks {
+			for _, in := range b.Instrs {
+				if a, ok := in.(*ssa.Alloc); ok && a.Heap && a.Comment == e.Args[0].Name {
+					if v, ok := x.regs[a]; ok && v.K == VScalar {
+						return retype(v, a.Type()), nil
+					}
+				}
+			}
 		}
 		return nil, fmt.Errorf("no local named %s is live here", e.Args[0].Name)
 	case "at":
